@@ -7,7 +7,8 @@ Functions under contract (real source): write_paths.WriteToPaths.create / update
 Transition contracts over the ghost file system fs (x: one concrete example Sid per template; data and the stored document symbolic):
   create(x [, data])  x has no path, or its path exists      -> raises SpilException, fs unchanged
                       otherwise                              -> True; afterwards the path and every ancestor exist, no other path changed
-                                                                (except the sidecar, which holds exactly `data` when data is given)
+                                                                (except the sidecar: sidecar' == overlay(sidecar, data) -- a new entity may share
+                                                                 the sidecar of a sibling that differs by the file extension only)
   update(x, data) / set(x, k=v)   x has no path or is absent -> raises SpilException, fs unchanged
                       otherwise                              -> True; sidecar' == overlay(sidecar, data); no other path changed
   get_data(x) == document(sidecar) + {'sid': encode(x)}       (reads have no effect)
@@ -44,10 +45,13 @@ def cases(tier):
             cs.append(('create', T, c, st0, False)); cs.append(('create', T, c, st0, True))
             cs.append(('update', T, c, st0, 'absent' if st0 != 'exists' else 'doc'))
             if st0 == 'exists': cs.append(('update', T, c, st0, 'absent')); cs.append(('set', T, c, st0, 'doc'))
+        if haspath:      # the entity is new but its sidecar already holds a document (written through a sibling that differs by the file extension only)
+            cs.append(('create', T, c, 'absent+doc', False)); cs.append(('create', T, c, 'absent+doc', True))
     cs.append(('sidecar-lemma',))
     return cs
 
 def setup(it, st, T, c, exists, sidecar):
+    shared = exists.endswith('+doc'); exists = exists.split('+')[0]
     fs = W.install_fs(it)
     it.module('spil').ns['FindInPaths'] = PClass('FindInPaths', [V.OBJECT])
     x, vals = C.mk_concrete(it, T)
@@ -67,9 +71,9 @@ def setup(it, st, T, c, exists, sidecar):
     root = '/'.join(ps.split('/')[:8]) if isinstance(ps, str) else None
     def initial(path):
         if it.known_eq(path, ps): return ('file' if isfile else 'dir', FS.INVALID) if exists == 'exists' else ('absent', None)
-        if it.known_eq(path, dp): return {'absent': ('absent', None), 'doc': ('file', FS.Json(FS.deep_copy(D0)))}[sidecar if exists == 'exists' else 'absent']
+        if it.known_eq(path, dp): return {'absent': ('absent', None), 'doc': ('file', FS.Json(FS.deep_copy(D0)))}[sidecar if exists == 'exists' or shared else 'absent']
         if _is_ancestor(it, path, ps):
-            if exists == 'exists' or nanc == 0: return ('dir', None)
+            if exists == 'exists' or nanc == 0 or shared: return ('dir', None)
             depth = path.count('/') if isinstance(path, str) else 99
             if nanc == 1: return ('dir', None) if depth <= ps.count('/') - 2 else ('absent', None)
             return ('dir', None) if root and (root == path or root.startswith(path + '/')) else ('absent', None)
@@ -87,7 +91,7 @@ def run(it, st, case):
     kind = case[0]
     if kind == 'sidecar-lemma': return run_lemma(it, st)
     _, T, c, st0, extra = case
-    fs, x, p, ps, dp, D0, W_, wp = setup(it, st, T, c, st0, extra if kind != 'create' else 'absent')
+    fs, x, p, ps, dp, D0, W_, wp = setup(it, st, T, c, st0, extra if kind != 'create' else ('doc' if st0.endswith('+doc') else 'absent'))
     uri = it.to_str(x)
     SpilEx = it.resolve(Lazy('spil.util.exception', 'SpilException'))
     wk, wv = st.fresh_str('wk_', nonempty=True), st.fresh_str('wv_', nonempty=True); st.assume(st.norm(wk).z() != z3.StringVal('sid'))
@@ -123,7 +127,12 @@ def run(it, st, case):
         st.oblige(f'{name}:nothing-but-the-entity-its-missing-ancestors-and-its-sidecar-changes', only, ('C15',), info={'changed': [repr(q)[:80] for q in ch]})
         try: d = it.call(it.getattr(g, 'get_data'), [x], {})
         except Raised as e: st.oblige(f'{name}:data-reads-back', False, ('C15',), info={'exception': V.exc_name(e)}); return 'ok'
-        st.oblige(f'{name}:data-reads-back', doc_eq(it, d, [(wk, wv)] if extra else [], uri), ('C15',), info={'got': repr(d)[:200]})
+        want = [[k, v] for k, v in D0.items] if st0.endswith('+doc') else []        # a document already in the (shared) sidecar: other keys persist
+        if extra:
+            hit = [kv for kv in want if it.known_eq(kv[0], wk)]
+            if hit: hit[0][1] = wv
+            else: want.append([wk, wv])
+        st.oblige(f'{name}:data-reads-back' + ('-as-the-overlay-on-a-document-already-in-the-sidecar' if st0.endswith('+doc') else ''), doc_eq(it, d, want, uri), ('C15',), info={'got': repr(d)[:200]})
         return 'ok'
     old = [(k, v) for k, v in D0.items] if extra == 'doc' else []
     new = [[k, v] for k, v in old]
